@@ -18,7 +18,7 @@ CHECKS = {
  "C05": dict(
    technique="TLA+ contract XtObs (lag rule at every read request); recorded read/write interleavings validated by TLC",
    text="Streams of 10-120 documents are fed through packetising readers; at every read request of the real run TLC checks delivered - written <= 2 for JSON, MessagePack and YAML sources, explicit and detected.",
-   note="Memory growth is not yet asserted in this check (bounded-lag half of the statement only).",
+   note="Lag is checked at every read request of every recorded run; memory is a measured scalar (counting allocator) that spec/XtMem.tla bounds (peak <= 2 MiB + 100 x largest document; peak(4N) <= 1.25 peak(N) + 1 MiB) - the specification does not model allocation.",
    design_ref="DESIGN.md 4.3, 6 (C05)"),
  "C08": dict(
    technique="TLA+ contract XtObs (TOML rules); recorded TOML-target histories validated by TLC",
